@@ -96,6 +96,15 @@ Definition bias (n : Z) (N : Q) : Q := (1 + (2 * inject_Z n + 1) / N) / (1 + 1 /
 Definition crit_neg (rho_n nsig drho_sq : Q) : bool :=
   if Qltb rho_n 0 then true else Qltb (rho_n * rho_n) (nsig * nsig * drho_sq).
 
+(* near tie of the tail criterion: |rho[n] - N_sigma * drho[n]| <= 2^-30 (rho is normalised, |rho| <= 1 up to noise), decided from squares.
+   A floating-point implementation may decide such a case either way -- in particular rho[n] = 0 exactly at a lag without any pair,
+   where the FFT path returns +-1e-17 -- so the analysis reports a tie there, as for the automatic window. *)
+Definition crit_margin : Q := 1 # (2 ^ 30).
+Definition crit_tie (rho_n nsig drho_sq : Q) : bool :=
+  let b2 := nsig * nsig * drho_sq in
+  let ap := rho_n + crit_margin in let am := rho_n - crit_margin in
+  (Qleb 0 ap && Qleb b2 (ap * ap)) && (Qleb am 0 || Qleb (am * am) b2).
+
 Section Analysis.
   (* sign oracle for g_W(n) = exp(-n/tau) - tau/sqrt(n N), tau = S / ln((2 t + 1)/(2 t - 1)):
      Some true: g < 0, Some false: g >= 0 is certain... (see Base/RI.v), None: too close to call *)
@@ -149,7 +158,8 @@ Section Analysis.
                     if (w_max / 2 <=? n)%Z then AError
                     else
                       let drho' := setd drho (n + 1)%Z in
-                      if crit_neg (qnthz rho n) (p_N_sigma p) (qnthz drho' n) || (w_max / 2 - 2 <=? n)%Z then
+                      if crit_tie (qnthz rho n) (p_N_sigma p) (qnthz drho' n) && negb (w_max / 2 - 2 <=? n)%Z then ATie
+                      else if crit_neg (qnthz rho n) (p_N_sigma p) (qnthz drho' n) || (w_max / 2 - 2 <=? n)%Z then
                         let tauint := Qred (qnthz n_tauint n * bias n N + p_tau_exp p * Qabs (qnthz rho (n + 1)%Z)) in
                         let dtau_sq := Qred (qnthz n_dtau_sq n + p_tau_exp p * p_tau_exp p * qnthz drho' (n + 1)%Z) in
                         let dv := Qred (2 * tauint * g0 * (1 + 1 / N) / N) in
@@ -246,7 +256,7 @@ Section SpecAnalysis.
           if Qltb 0 (p_tau_exp p) then
             if (w_max / 2 <=? 1)%Z then AError
             else
-              match first_neg (S wn) 1 (Z.max 1 (w_max / 2 - 2)) (fun n => Some (crit_neg (rho n) (p_N_sigma p) (drs n))) with
+              match first_neg (S wn) 1 (Z.max 1 (w_max / 2 - 2)) (fun n => if crit_tie (rho n) (p_N_sigma p) (drs n) then None else Some (crit_neg (rho n) (p_N_sigma p) (drs n))) with
               | None => ATie
               | Some W =>
                   let tauint := Qred (taun W * bias W N + p_tau_exp p * Qabs (rho (W + 1)%Z)) in
